@@ -93,7 +93,9 @@ def run_history(chooser, steps):
                     viols.append((f"value:{key_tail}", f"{where}{desc} on a {state_kind} object "
                                   f"returned {ret!r}, not a failure value"))
             history.append(desc)
-        elif kind == "disconnect":
+        elif kind in ("disconnect", "disconnect_fault"):
+            if kind == "disconnect_fault" and ports:
+                ports[-1].fail_next_close = True        # closing the port raises
             _ret, exc = call(obj, "disconnect", ())
             if exc is not None or obj.port is not None:
                 viols.append(("disconnect", f"{where}disconnect() raised {exc!r} / left port "
@@ -175,6 +177,9 @@ def _probe_state(args):
     for env in CONNECT_ENVS:
         tails.append([("disconnect",), ("connect", env)])
     tails.append([("connect", "ok")])                   # connect without disconnecting first
+    tails.append([("disconnect_fault",)])               # close() raising must not matter
+    tails.append([("disconnect_fault",), ("connect", "ok")])
+    tails.append([("disconnect_fault",), ("connect", "oldfw")])
     for tail in tails:
         for op in ops:
             full = list(steps) + tail + [("op", op)]
